@@ -35,8 +35,8 @@ PROP = {
                   "never acknowledged leases is left open (both outcomes accepted, the offer is checked like any "
                   "other). Trusts insomniacslk/dhcp for encoding/decoding packets, encoding/json, net/netip.",
     "tests": [
-        ("TestVFC10Machine", (500, 8000), {"steps": 40}),
-        ("TestVFC10OfferWhenFree", (400, 4000)),
+        ("TestVFC10Machine", (500, 4000), {"steps": 40}),
+        ("TestVFC10OfferWhenFree", (400, 2500)),
     ],
     "plain": ["TestVFC10Regress"],
     "shards": (4, 16),
